@@ -148,7 +148,7 @@ def extract(root=None, cfg="dev", log=None):
         return out, meta
 
 
-def _prune(facts_root, keep, maxn=24, min_age_s=1200):
+def _prune(facts_root, keep, maxn=24, min_age_s=600):
     """drop the oldest cached fact sets beyond `maxn`, but never one younger than `min_age_s`: several analyses of scratch
     trees may run side by side (seed matrix, thorough-tier audit) and must not evict each other's facts"""
     try:
